@@ -218,8 +218,11 @@ impl V {
             (V::Enum(a, x), V::Enum(b, y)) => {
                 a == b && x.len() == y.len() && x.iter().zip(y).all(|(p, q)| p.lang_eq(q))
             }
+            // fields are matched by name: two anonymous record literals of the
+            // same type may list their fields in different orders
             (V::Rec(x), V::Rec(y)) => {
-                x.len() == y.len() && x.iter().zip(y).all(|(p, q)| p.0 == q.0 && p.1.lang_eq(&q.1))
+                x.len() == y.len()
+                    && x.iter().all(|(n, v)| y.iter().find(|(m, _)| m == n).is_some_and(|(_, w)| v.lang_eq(w)))
             }
             (V::List(x), V::List(y)) => {
                 let (x, y) = (x.borrow(), y.borrow());
@@ -241,7 +244,8 @@ impl V {
                 a == b && x.len() == y.len() && x.iter().zip(y).all(|(p, q)| p.obs_eq(q))
             }
             (V::Rec(x), V::Rec(y)) => {
-                x.len() == y.len() && x.iter().zip(y).all(|(p, q)| p.0 == q.0 && p.1.obs_eq(&q.1))
+                x.len() == y.len()
+                    && x.iter().all(|(n, v)| y.iter().find(|(m, _)| m == n).is_some_and(|(_, w)| v.obs_eq(w)))
             }
             (V::List(x), V::List(y)) => {
                 let (x, y) = (x.borrow(), y.borrow());
